@@ -2059,6 +2059,15 @@ func (ss *ServerSession) handle(ctx context.Context, req *jsonrpc.Request) (_ an
 	}
 
 	res, err := handleReceive(ctx, ss, req)
+	if req.Method == methodSubscriptionsListen {
+		// The listen has ended: forget its ID, which the peer may use again for
+		// a request that Close must not cancel.
+		ss.mu.Lock()
+		if i := slices.Index(ss.listenIDs, req.ID); i >= 0 {
+			ss.listenIDs = slices.Delete(ss.listenIDs, i, i+1)
+		}
+		ss.mu.Unlock()
+	}
 	if err != nil {
 		return nil, err
 	}
